@@ -200,7 +200,7 @@ def run(ctx):
 
     ctx.rule('CALC-SIBS', 'the header writers that, while the file is still open, take the data length from the frame count (`psf->datalength = psf->sf.frames * psf->bytewidth * psf->sf.channels`: '
              'WAV, RF64, CAF) do so under the same condition: the branch is what keeps the bytes of a chunk behind the audio from being counted as audio during a header update in SFM_RDWR, '
-             'and a sibling that narrows it (to SFM_WRITE only) reports too many frames', floor=3)
+             'and a sibling that narrows it (to SFM_WRITE only) reports too many frames', floor=2)
     from engine.util import branch_facts as _bf11
     inst = []
     for name, f in sorted(wh.items()):
@@ -209,7 +209,7 @@ def run(ctx):
                 facts = _bf11(f, a)
                 if facts:
                     inst.append((name, f, a, facts[0]))
-    ctx.require(len(inst) >= 3, 'only %d header writers take the data length from the frame count' % len(inst))
+    ctx.require(len(inst) >= 2, 'only %d header writers take the data length from the frame count' % len(inst))
     from collections import Counter as _Cn11
     maj = _Cn11([fc for _, _, _, fc in inst]).most_common(1)[0][0]
     for name, f, a, fc in inst:
